@@ -64,7 +64,7 @@ inductive St
   | cont (kind : String) (n : Nat) (xhash : Bool) (shards : List MapSt)
   | lock (kind : String) (n : Nat) (xhash : Bool)
   | wl (kd : Nv.C04.Kind) (n : Nat) (xhash : Bool) (shards : List Nv.C04.Lru) (seen : List Key)
-  | locks (kind : String) (n : Nat) (xhash : Bool) (ls : LockSt)
+  | locks (kind : String) (n : Nat) (xhash : Bool) (cap : Nat) (ls : LockSt)
 
 def showOut : Out → String
   | .idx i => toString i
@@ -117,7 +117,26 @@ def parseApi (s : String) : Option (Bool × Bool) :=
   | "w" => some (true, false) | "r" => some (false, false) | "ws" => some (true, true) | "rs" => some (false, true)
   | _ => none
 
-def step (st : St) (line : String) : St × String :=
+/-- `bset` / `bdel` / `bprobe` over the int keys a … a+cnt-1 (value key+1) on the sharded map model, modulo routing -/
+def bulk (op : String) (n a cnt : Nat) (shards : List MapSt) : Option (List MapSt × Nat × Nat) :=
+  (List.range cnt).foldl (fun acc i =>
+    match acc with
+    | none => none
+    | some (sh, present, sum) =>
+      let key : Key := ⟨.int, a + i, "", 0⟩
+      match genSimple n key with
+      | .panic => none
+      | .idx j =>
+        match sh[j]? with
+        | none => none
+        | some m =>
+          if op == "bset" then some (sh.set j (mapStep m key (.set (a + i + 1))).1, present, sum)
+          else if op == "bdel" then some (sh.set j (mapStep m key .delete).1, present, sum)
+          else match mlookup key m with
+            | some v => some (sh, present + 1, sum + v)
+            | none => some (sh, present, sum)) (some (shards, 0, 0))
+
+def stepRest (st : St) (line : String) : St × String :=
   match words line with
   | ["reset"] => (.none, "ok")
   | ["firstuse", n, r, t] =>
@@ -135,9 +154,16 @@ def step (st : St) (line : String) : St × String :=
   | ["locks", kind, n, r] =>
     match parseN n with
     | some n =>
-      if n = 0 ∨ n > 4096 ∨ ¬ (r == "simple" || r == "xhash") ∨
-          ¬ (kind == "klock" || kind == "tklock-i64" || kind == "tklock-str" || kind == "semap") then (st, "bad-op")
-      else (.locks kind n (r == "xhash") LockSt.empty, "ok")
+      -- `semap` = default read/write ratio 10; `semap-r1|2|3` = WithRwRatio(1|2|3) on both the wide and the single map
+      let cap : Option Nat := match kind with
+        | "klock" | "tklock-i64" | "tklock-str" => some 0
+        | "semap" => some 10 | "semap-r1" => some 1 | "semap-r2" => some 2 | "semap-r3" => some 3
+        | _ => none
+      match cap with
+      | some cap =>
+        if n = 0 ∨ n > 4096 ∨ ¬ (r == "simple" || r == "xhash") then (st, "bad-op")
+        else (.locks kind n (r == "xhash") cap LockSt.empty, "ok")
+      | none => (st, "bad-op")
     | none => (st, "bad-op")
   | ["remap", n] =>
     match parseN n with
@@ -175,20 +201,20 @@ def step (st : St) (line : String) : St × String :=
     | none => (st, "bad-op")
   | [op, t, api, ks] =>
     match st with
-    | .locks kind n xh ls =>
+    | .locks kind n xh cap ls =>
       match parseNat? t, parseApi api, parseKeys ks with
       | some t, some (write, multi), some keys =>
         if !(op == "acq" || op == "rel") || t > 3 || !isDecimal (toString t) || !keys.all (lockKeyOk kind) ||
             (!multi && keys.length != 1) || (multi && !(kind == "tklock-i64" || kind == "tklock-str")) then (st, "bad-op")
         else if keys.any (fun k => match route n xh k with | .idx i => decide (i ≥ n) | .panic => true) then (st, "panic")
         else if op == "acq" then
-          match ls.acquire t keys write with
-          | some (ls', granted) => (.locks kind n xh ls', if granted then "ret" else "parked")
+          match ls.acquire cap t keys write with
+          | some (ls', granted) => (.locks kind n xh cap ls', if granted then "ret" else "parked")
           | none => (st, "bad-op")
         else
-          match ls.release t keys write with
-          | some (ls', some w) => (.locks kind n xh ls', s!"ret wake:{w}")
-          | some (ls', none) => (.locks kind n xh ls', "ret")
+          match ls.release cap t keys write with
+          | some (ls', some w) => (.locks kind n xh cap ls', s!"ret wake:{w}")
+          | some (ls', none) => (.locks kind n xh cap ls', "ret")
           | none => (st, "bad-op")
       | _, _, _ => (st, "bad-op")
     | .wl kd n xh shards seen =>
@@ -244,8 +270,9 @@ def step (st : St) (line : String) : St × String :=
           match shards[i]? with
           | none => (st, "panic")      -- index outside the shard slice
           | some sh =>
-            let present := (mlookup key sh).isSome
-            let r := mapStep sh key req
+            let key0 := { key with hash := 0 }   -- identity of a key in the map: type and value (the hash is routing data)
+            let present := (mlookup key0 sh).isSome
+            let r := mapStep sh key0 req
             (.cont kind n xh (shards.set i r.1), showResp (kind != "map") req present r.2)
     | .lock kind n xh, some key =>
       if key.ty == .bytes || key.ty == .other then (st, "bad-op")
@@ -257,5 +284,19 @@ def step (st : St) (line : String) : St × String :=
         | .idx i => if i < n then (st, "ok") else (st, "panic")
     | _, _ => (st, "bad-op")
   | _ => (st, "bad-op")
+
+def step (st : St) (line : String) : St × String :=
+  match words line with
+  | [op, a, cnt] =>
+    if op == "bset" || op == "bdel" || op == "bprobe" then
+      match st, (if isDecimal a && a.length ≤ 9 then a.toNat? else none), (if isDecimal cnt && cnt.length ≤ 9 then cnt.toNat? else none) with
+      | .cont kind n false shards, some a, some cnt =>
+        if cnt = 0 ∨ cnt > 20000 ∨ a > 1000000 then (st, "bad-op") else
+        match bulk op n a cnt shards with
+        | some (sh, present, sum) => (.cont kind n false sh, if op == "bprobe" then s!"present={present} sum={sum}" else "ok")
+        | none => (st, "panic")
+      | _, _, _ => (st, "bad-op")
+    else stepRest st line
+  | _ => stepRest st line
 
 def main : IO Unit := oracleMain step St.none
